@@ -24,7 +24,7 @@ var detAllowPkgs = map[string]bool{
 	"math": true, "sort": true, "fmt": true, "errors": true, "github.com/pkg/errors": true, "strings": true,
 	"strconv": true, "bufio": true, "bytes": true, "io": true, "context": true, "sync/atomic": true, "sync": true,
 	"slices": true, // deterministic functions of their arguments (unlike package maps, whose iteration order is not)
-	"log": true, "gopkg.in/yaml.v3": true, "github.com/spf13/cast": true, "unicode": true, "unicode/utf8": true,
+	"log":    true, "gopkg.in/yaml.v3": true, "github.com/spf13/cast": true, "unicode": true, "unicode/utf8": true,
 }
 
 // top-level draws from the seeded global source
@@ -154,10 +154,10 @@ func InRepoOf(p *Prog, fn *ssa.Function) bool {
 
 // C17 — evolution is reproducible from the seed.
 func C17(p *Prog, r *Run) {
-	r.Explanation = "Bit-for-bit reproducibility cannot be decided statically; decided is the absence, in every repository function reachable over the VTA call graph from NewPopulation, NewPopulationRandom, ReadPopulation and SequentialPopulationEpochExecutor.NextEpoch, of the only mechanisms that can break it: iteration over a map, goroutines, channel operations, select other than the non-blocking ctx.Done() test, pointer-to-integer conversions, writes to package-level variables, reads of package-level variables outside a fixed list of constants (log level and loggers, the activation registry, the context key, error sentinels), and calls into any external function outside an allow-list of deterministic packages (math/rand only through top-level draws from the seeded global source; no time, os, runtime, reflect, crypto/rand). One obligation per reachable function. A fixture package with a map range behind a call must be reported on every run. Three history rules cover \"earlier unrelated work in the process\": (C17.4) an information-flow analysis with the single source neat.LogLevel shows that branches depending on the logger level control only message formatting and logger calls (control regions from post-dominators, implicit flows through phis, results of calls, effect-free callees from the write-through facts); (C17.5) the population constructors write nothing through the start genome, organisms are built around duplicates, and the duplicate shares no memory with its source (alias obligations shared with C06.1-C06.3); (C17.6) no reachable function writes a field of neat.Options or an element of a list it holds, and the roots have no write-through fact through their options/context arguments - so nothing memoised in an input object survives a run. Not decided: state kept in the executor object between epochs (bestSpeciesReproduced is never reset in the pinned tree); that no other conceivable source exists; determinism of the fitness function (a premise of the property)."
+	r.Explanation = "Bit-for-bit reproducibility cannot be decided statically; decided is the absence, in every repository function reachable over the VTA call graph from NewPopulation, NewPopulationRandom, ReadPopulation and SequentialPopulationEpochExecutor.NextEpoch, of the only mechanisms that can break it: iteration over a map, goroutines, channel operations, select other than the non-blocking ctx.Done() test, pointer-to-integer conversions, writes to package-level variables, reads of package-level variables outside a fixed list of constants (log level and loggers, the activation registry, the context key, error sentinels; besides the list, a variable of the library proved to be a constant table: no pointer in its type, filled with constants by its package initialiser, written or address-taken nowhere else in the program), and calls into any external function outside an allow-list of deterministic packages (math/rand only through top-level draws from the seeded global source; no time, os, runtime, reflect, crypto/rand). One obligation per reachable function. A fixture package with a map range behind a call must be reported on every run. Three history rules cover \"earlier unrelated work in the process\": (C17.4) an information-flow analysis with the single source neat.LogLevel shows that branches depending on the logger level control only message formatting and logger calls (control regions from post-dominators, implicit flows through phis, results of calls, effect-free callees from the write-through facts); (C17.5) the population constructors write nothing through the start genome, organisms are built around duplicates, and the duplicate shares no memory with its source (alias obligations shared with C06.1-C06.3); (C17.6) no reachable function writes a field of neat.Options or an element of a list it holds, and the roots have no write-through fact through their options/context arguments - so nothing memoised in an input object survives a run. Not decided: state kept in the executor object between epochs (bestSpeciesReproduced is never reset in the pinned tree); that no other conceivable source exists; determinism of the fitness function (a premise of the property)."
 	roots := []*ssa.Function{p.Func(PkgG, "NewPopulation"), p.Func(PkgG, "NewPopulationRandom"), p.Func(PkgG, "ReadPopulation"),
 		p.Func(PkgG, "SequentialPopulationEpochExecutor.NextEpoch")}
-	allowGlobal := func(g *ssa.Global) bool {
+	listedGlobal := func(g *ssa.Global) bool {
 		path, name := g.Pkg.Pkg.Path(), g.Name()
 		switch path {
 		case PkgT:
@@ -170,6 +170,15 @@ func C17(p *Prog, r *Run) {
 			return name == "EOF"
 		}
 		return false
+	}
+	allowGlobal := func(g *ssa.Global) bool {
+		if listedGlobal(g) {
+			return true
+		}
+		// a constant table: a variable of the library that holds no pointer of any kind, is filled with constants by its
+		// package's initialiser and can be written by nothing else in the program (decided from the code, robust_c07.go:
+		// ConstTableOf) reads the same in every run
+		return g.Pkg != nil && InRepoOf(p, g.Pkg.Func("init")) && p.ConstTableOf(g).Why == ""
 	}
 	// sort.Interface implementations of the genetics package are called back by sort.Sort on the
 	// path (the library body is not part of the quick load): treat them as roots as well.
